@@ -55,6 +55,67 @@ theorem boolean_rows_guard (truth : Term → Bool) (len nrow : Nat) :
     subst h
     simp
 
+/-! ### whole rows: the generator bodies of filter / filter_out / slice / slice_off -/
+
+def parsedMask (m : Term) : Term := Term.app "._parse_rows_from_boolean" [Term.sym "self", m]
+
+/-- the condition a `filter` / `filter_out` call denotes, as one Boolean vector expression: the mask itself, the
+    callable applied to the WHOLE receiver, or the conjunction accumulated over the column=value pairs. -/
+def conditionOf (truth : Term → Bool) (rowsNone : Bool) (folded : Term) : Term :=
+  if !rowsNone then (if truth (Term.app "callable" [Term.sym "rows"]) then Term.app "rows" [Term.sym "self"] else Term.sym "rows")
+  else if truth (Term.sym "colname_value_pairs") then folded else Term.sym "rows"
+
+/-- the loop that folds the column=value pairs into one mask, starting from all-true. -/
+def kvFold : Term :=
+  Term.app "for" [Term.app "tuple" [Term.sym "colname", Term.sym "value"], Term.app ".items" [Term.sym "colname_value_pairs"],
+    Term.app "block" [Term.app "assign" [Term.sym "rows", Term.app "BitAnd" [Term.sym "rows",
+      Term.app "Eq" [Term.app "getitem" [Term.sym "self", Term.sym "colname"], Term.sym "value"]]]],
+    Term.app "init" [Term.sym "rows", Term.app "Vector.fast([True], bool).repeat" [Term.app ".nrow" [Term.sym "self"]]]]
+
+/-- **filter returns whole rows**: as written, whatever form the condition takes, the method ends with
+    `for colname, column in self.items(): yield colname, np.take(column, R)` for ONE positions expression
+    `R = self._parse_rows_from_boolean(condition)` — every column is gathered with the same row positions (the model's
+    `filterIdx`, `C02.whole_rows`); a callable condition is evaluated once, on the whole receiver. -/
+theorem filter_whole_rows (truth : Term → Bool) (rowsNone : Bool) :
+    (DataFrame_filter truth rowsNone).effs.getLast? =
+      some (perColumn (fun c => Term.app "np.take"
+        [c, parsedMask (conditionOf truth rowsNone (Term.app "value-after-loop" [Term.sym "rows", kvFold]))])) := by
+  unfold DataFrame_filter conditionOf
+  cases rowsNone <;> cases truth (Term.app "callable" [Term.sym "rows"]) <;> cases truth (Term.sym "colname_value_pairs") <;> rfl
+
+/-- **filter_out drops exactly the complement**: the same positions expression, handed to `np.delete` for every column. -/
+theorem filter_out_whole_rows (truth : Term → Bool) (rowsNone : Bool) :
+    (DataFrame_filter_out truth rowsNone).effs.getLast? =
+      some (perColumn (fun c => Term.app "np.delete"
+        [c, parsedMask (conditionOf truth rowsNone (Term.app "value-after-loop" [Term.sym "rows", kvFold]))])) := by
+  unfold DataFrame_filter_out conditionOf
+  cases rowsNone <;> cases truth (Term.app "callable" [Term.sym "rows"]) <;> cases truth (Term.sym "colname_value_pairs") <;> rfl
+
+/-- `slice` as written: the selected columns (by position, in the requested order), each indexed with the ONE integer
+    positions expression and copied; all rows when `rows` is None. -/
+theorem slice_whole_rows (truth : Term → Bool) (rowsNone colsNone : Bool) :
+    DataFrame_slice truth rowsNone colsNone =
+      let rows := Term.app "._parse_rows_from_integer" [Term.sym "self",
+        if rowsNone then Term.app "np.arange" [Term.app ".nrow" [Term.sym "self"]] else Term.sym "rows"]
+      let cols := Term.app "._parse_cols_from_integer" [Term.sym "self",
+        if colsNone then Term.app "np.arange" [Term.app ".ncol" [Term.sym "self"]] else Term.sym "cols"]
+      Out.fall [Term.app "for" [Term.sym "colname",
+        Term.app "GeneratorExp" [Term.app "getitem" [Term.app ".colnames" [Term.sym "self"], Term.sym "x"],
+          Term.app "in" [Term.sym "x", cols, Term.app "if" []]],
+        Term.app "block" [Term.app "yield" [Term.app "tuple" [Term.sym "colname",
+          Term.app ".copy" [Term.app "getitem" [Term.app "getitem" [Term.sym "self", Term.sym "colname"], rows]]]]]]] := rfl
+
+/-- `slice_off` as written: every column whose position is not listed, with the ONE positions expression deleted; nothing
+    is dropped when `rows` is None. -/
+theorem slice_off_whole_rows (truth : Term → Bool) (rowsNone colsNone : Bool) :
+    DataFrame_slice_off truth rowsNone colsNone =
+      let rows := Term.app "._parse_rows_from_integer" [Term.sym "self", if rowsNone then Term.app "list" [] else Term.sym "rows"]
+      let cols := Term.app "._parse_cols_from_integer" [Term.sym "self", if colsNone then Term.app "list" [] else Term.sym "cols"]
+      Out.fall [Term.app "for" [Term.app "tuple" [Term.sym "i", Term.sym "colname"], Term.app "enumerate" [Term.app ".colnames" [Term.sym "self"]],
+        Term.app "block" [Term.app "if" [Term.app "In" [Term.sym "i", cols], Term.app "block" [Term.sym "continue"], Term.app "block" []],
+          Term.app "yield" [Term.app "tuple" [Term.sym "colname",
+            Term.app "np.delete" [Term.app "getitem" [Term.sym "self", Term.sym "colname"], rows]]]]]] := rfl
+
 example : headIdx 5 3 = [0, 1, 2] ∧ tailIdx 5 3 = [2, 3, 4] ∧ tailIdx 2 7 = [0, 1] := by decide
 
 end DI.Tie.C02
